@@ -39,6 +39,12 @@ FoldSorted == IF Sorted = <<>> THEN 0 ELSE m[Sorted[Len(Sorted)]]
 \* ---- site 4: relaxing equally ranked price chains: the first chain met keeps its rate
 FirstWins(o) == IF Walk(o) = <<>> THEN 0 ELSE m[Walk(o)[1]]
 FirstSorted == IF Sorted = <<>> THEN 0 ELSE m[Sorted[1]]
+\* ---- site 5: validating every entry and giving up at the first invalid one (`for (k, v) in map { check(v)? }`): which
+\*      entry the error names.  An entry is invalid when its value is the smallest of Vals.
+Invalid(k) == \A v \in Vals : m[k] <= v
+FirstInvalidIn(w) == LET bad == SelectSeq(w, Invalid) IN IF bad = <<>> THEN 0 ELSE bad[1]
+FirstInvalid(o) == FirstInvalidIn(Walk(o))
+FirstInvalidSorted == FirstInvalidIn(Sorted)
 
 Init == /\ \E D \in SUBSET Keys : m \in [D -> Vals]
         /\ o1 \in Perms /\ o2 \in Perms
@@ -51,17 +57,20 @@ SensitivePrint == PrintAsMet(o1) # PrintAsMet(o2)
 SensitivePick == PickFirst(o1) # PickFirst(o2)
 SensitiveFold == FoldLastWins(o1) # FoldLastWins(o2)
 SensitiveFirst == FirstWins(o1) # FirstWins(o2)
+SensitiveInvalid == FirstInvalid(o1) # FirstInvalid(o2)
 
 \* a walk can differ between two processes only for these inputs ...
 ClassPrint == SensitivePrint => Cardinality(DOMAIN m) >= 2
 ClassPick == SensitivePick => Cardinality(DOMAIN m) >= 2
 ClassFold == SensitiveFold => \E a, b \in DOMAIN m : a # b /\ m[a] # m[b]
 ClassFirst == SensitiveFirst => \E a, b \in DOMAIN m : a # b /\ m[a] # m[b]
+ClassInvalid == SensitiveInvalid => \E a, b \in DOMAIN m : a # b /\ Invalid(a) /\ Invalid(b)
 \* ... and for every such input some pair of orders does differ (checked as: the two orders "as met" vs "reversed")
 Reverse(o) == [i \in 1..Len(o) |-> o[Len(o) + 1 - i]]
 WitnessPrint == (o2 = Reverse(o1) /\ Cardinality(DOMAIN m) >= 2) => SensitivePrint
 WitnessPick == (o2 = Reverse(o1) /\ Cardinality(DOMAIN m) >= 2) => SensitivePick
 WitnessFold == (o2 = Reverse(o1) /\ Cardinality(DOMAIN m) >= 2 /\ m[Walk(o1)[1]] # m[Walk(o1)[Len(Walk(o1))]]) => SensitiveFold
+WitnessInvalid == (o2 = Reverse(o1) /\ \E a, b \in DOMAIN m : a # b /\ Invalid(a) /\ Invalid(b)) => SensitiveInvalid
 \* the design variants are functions of the map alone
 DesignWellDefined == /\ Len(PrintSorted) = Cardinality(DOMAIN m)
                      /\ \A i, j \in 1..Len(Sorted) : i < j => Sorted[i] < Sorted[j]
@@ -69,7 +78,8 @@ DesignWellDefined == /\ Len(PrintSorted) = Cardinality(DOMAIN m)
 
 \* the order-sensitive input classes, one record per map shape (emitted once per shape: o1 = o2 = sorted order)
 Identity == [i \in 1..Cardinality(Keys) |-> CHOOSE k \in Keys : Cardinality({j \in Keys : j < k}) = i - 1]
-Shape == [n |-> Cardinality(DOMAIN m), distinct |-> Cardinality({m[k] : k \in DOMAIN m})]
+Shape == [n |-> Cardinality(DOMAIN m), distinct |-> Cardinality({m[k] : k \in DOMAIN m}), invalid |-> Cardinality({k \in DOMAIN m : Invalid(k)})]
 EmitClass == (o1 = Identity /\ o2 = Reverse(o1)) =>
                PrintT(<<"CLASS", Shape.n, Shape.distinct, SensitivePrint, SensitivePick, SensitiveFold, SensitiveFirst>>)
+               /\ PrintT(<<"CLASS5", Shape.n, Shape.invalid, SensitiveInvalid>>)
 =============================================================================
